@@ -2,7 +2,7 @@ import Percival.Model.WipeLang
 /-!
 # Semantics of clean-up code and the wipe checks (C20)
 
-Three executable judgements over the statement lists regenerated from the C source:
+Four executable judgements over the statement lists regenerated from the C source:
 
 * `ctxWipedAtEnd`   — hash/HMAC `*_Final`: the last thing that happens to the context object is
   that all of it is zeroed (directly, or member by member through `*_Final` calls on each member).
@@ -13,6 +13,10 @@ Three executable judgements over the statement lists regenerated from the C sour
   enumerates every exit path (each failing call jumps to its label *without* the call's effect),
   tracks which objects are live and which hold data derived from the private exponent or the
   blinding value, and records how each object is released.
+* `errorPathsClean`  — the key-expand functions (`crypto_aes_key_expand`, `_aesni`, `_arm`, `crypto_aesctr_alloc/init`):
+  translated with their control flow kept; the set of reachable (position, state of the key object) pairs is computed
+  and checked closed; no plain `free`/`realloc` of the object is reachable while it may hold key-derived data
+  (section 4).
 
 Every function comes as one statement list per preprocessor configuration (`…Configs`); `allConfigs`
 lifts a judgement to all of them.  Two further syntactic rules: `onlyHandledBy` (an object is passed
